@@ -121,6 +121,18 @@ func c08Enum(c *mc.Ctx, yield func(c08Spec)) {
 		for _, r := range reqs {
 			yield(c08Spec{TF: tf, Hist: [][]int{r}})
 		}
+		// three-row requests that move between the two years and back (the writer switches year files
+		// inside one request): all 64 tuples over first/second interval of 2020 and of 2021
+		if !c.Thorough() && (maxLen < 3) {
+			ys := []int{0, 2, 10, 12}
+			for _, a := range ys {
+				for _, b := range ys {
+					for _, cc := range ys {
+						yield(c08Spec{TF: tf, Hist: [][]int{{a, b, cc}}})
+					}
+				}
+			}
+		}
 		// histories of 2 requests over a reduced request set: tuples of length <=2 over the 8 on-start symbols
 		// (thorough: over 6 slots with both stampings)
 		var r2 [][]int
